@@ -55,12 +55,23 @@ Definition released_ok (before after : list oact) : bool :=
                        | OInactive l1, OInactive l2 => time_eqb l1 l2
                        | _, _ => false end) before after.
 
-(* new outage records: untouched inactive ones, or started now with non-negative length *)
-Definition sampled_ok (now : Z) (before after : list oact) : bool :=
-  forallb2 (fun b a => match b, a with
-                       | OInactive l1, OInactive l2 => time_eqb l1 l2
-                       | OInactive _, OActive (Time s) (Time e) => (s =? now) && (s <=? e)
-                       | _, _ => false end) before after.
+(* new outage records: untouched inactive ones, or started now with non-negative length; for an outage definition with a
+   deterministic frequency the record is started exactly when it is due (elapsed time since its last end within the
+   frequency - the rule of outage_utils, SM/Util.v sample_outage), and with a deterministic duration it lasts exactly that *)
+Definition det_due (now : Z) (c : ocfg) (b : oact) : option bool :=
+  match b, og_freq c with
+  | OInactive l, Det f => Some ((now - (match l with NoTime => 0 | Time z => z end)) <=? f)
+  | _, _ => None
+  end.
+Definition sampled_ok (now : Z) (cs : list ocfg) (before after : list oact) : bool :=
+  forallb2 (fun cb a => match snd cb, a with
+                        | OInactive l1, OInactive l2 =>
+                            time_eqb l1 l2 && (match det_due now (fst cb) (snd cb) with Some true => false | _ => true end)
+                        | OInactive _, OActive (Time s) (Time e) =>
+                            (s =? now) && (s <=? e)
+                            && (match det_due now (fst cb) (snd cb) with Some false => false | _ => true end)
+                            && (match og_dur (fst cb) with Det d => e =? now + d | _ => true end)
+                        | _, _ => false end) (combine cs before) after.
 
 Section Ev.
 Variable i : inst.
@@ -155,7 +166,7 @@ Definition ev_machine_outage (x : state) (tr : transition) (x' : state) : bool :
       opt_b (nth_error (s_jobs x') j) (fun jb' =>
       opt_b (first_proc jb) (fun k =>
       let l := max_active_len (m_out ms') in
-      (0 <=? l) && sampled_ok (s_now x) (m_out ms) (m_out ms')
+      (0 <=? l) && opt_b (nth_error (i_machs i) m) (fun mc => sampled_ok (s_now x) (mc_out mc) (m_out ms) (m_out ms'))
       && time_eqb (m_occ ms') (Time (s_now x + l)) && mstate_eqb (m_st ms') MOutage
       && list_nat_eqb (b_store (m_in ms')) (b_store (m_in ms))
       && opt_b (nth_error (j_ops jb) k) (fun o =>
@@ -287,7 +298,7 @@ Definition ev_deliver (x : state) (tr : transition) (x' : state) : bool :=
           opt_b (get_buf x tb) (fun b0 =>
           opt_b (get_buf x' tb) (fun b1 =>
           let l := max_active_len (t_out ts') in
-          (0 <=? l) && sampled_ok (s_now x) (t_out ts) (t_out ts')
+          (0 <=? l) && opt_b (nth_error (i_trans i) t) (fun ac => sampled_ok (s_now x) (ac_out ac) (t_out ts) (t_out ts'))
           && list_nat_eqb (b_store b1) (b_store b0 ++ [j])
           && list_nat_eqb (b_store (t_buf ts)) [j] && is_nil (b_store (t_buf ts'))
           && bid_eqb (j_loc jb') tb
